@@ -21,7 +21,9 @@ Symbolic = pg.Symbolic
 # ---------------------------------------------------------------------------
 def is_container(v):
   # pg.Ref is an explicit reference: its target belongs to another tree.
-  return isinstance(v, (pg.Dict, pg.List, pg.Object)) and not isinstance(v, pg.Ref)
+  # Hyper primitives (pg.oneof etc.) are values here, not trees to mutate.
+  return (isinstance(v, (pg.Dict, pg.List, pg.Object))
+          and not isinstance(v, (pg.Ref, pg.hyper.HyperValue)))
 
 
 def children(node):
